@@ -66,7 +66,7 @@ impl From<&Ipv6Packet> for Vec<u8> {
     fn from(ipv6: &Ipv6Packet) -> Self {
         let header = ipv6.header.borrow().clone();
         let mut bytes: Vec<u8> = (&header).into();
-        if let Some(inner) = ipv6.inner.borrow().clone() {
+        if let Some(inner) = ipv6.inner.borrow().clone().filter(|i| !i.is_error()) {
             let data: Vec<u8> = inner.as_ref().into();
             bytes.extend_from_slice(&data);
         } else {
